@@ -12,6 +12,22 @@ def run(run):
     for name in ('fast_generate_from', 'fcbo_dual', 'iterconcepts', 'get_concepts'):
         if not hasattr(algorithms, name):
             raise ApiBroken('concepts.algorithms.%s is gone' % name)
+    chains = [1100] if run.tier == 'quick' else [1100, 1600]
+    for N in chains:
+        # object i has the properties i..N-1: the concepts are ({0..j}, {j..N-1}) for j < N, nested; the enumeration tree is
+        # as deep as the table is long
+        with guard(run, 'generators on a chain of %d nested concepts' % N, ['chain %d' % N]):
+            from concepts import Context
+            objs = ['g%d' % i for i in range(N)]
+            props = ['m%d' % j for j in range(N)]
+            ctx = Context(objs, props, [tuple(j >= i for j in range(N)) for i in range(N)])
+            want = sorted((j + 1, N - j) for j in range(N))      # (|extent|, |intent|) of the j-th concept
+            for name in ('fast_generate_from', 'fcbo_dual'):
+                got = sorted((len(tuple(e.members())), len(tuple(i.members()))) for e, i in getattr(algorithms, name)(ctx))
+                if got != want:
+                    run.fail('%s on the chain context with %d objects' % (name, N), got[:5], want[:5], ['chain %d' % N])
+            run.case('chain %d' % N, True, {'context': 'chain', 'objects': N})
+            run.count('long chains')
     for tab, pc in lat.contexts(run, exh_quick=10, rand_quick=600, wide_quick=40, exh_thorough=14, nmax=10, mmax=10):
         if min(pc.n, pc.m) > 12:
             continue
